@@ -530,3 +530,344 @@ Proof.
   destruct (dat (fs s)) as [c|] eqn:Hd; [right|left; reflexivity].
   exists c. split; [reflexivity|]. apply (i1_dat s I c Hd).
 Qed.
+
+(* ------------------------------------------------------------------ thread-list bookkeeping *)
+Lemma put_thread_in : forall i p ths j q p0,
+  In (j, q) ths -> get_thread i ths = Some p0 ->
+  In (j, q) (put_thread i p ths) \/ (j = i /\ q = p0).
+Proof.
+  intros i p ths j q p0 Hin Hget.
+  assert (Hs : In (j, q) (set_thread i p ths) \/ (j = i /\ q = p0)).
+  { revert Hin Hget. induction ths as [|[k r] ths IH]; intros Hin Hget; [contradiction|].
+    cbn in *. destruct (N.eqb k i) eqn:E.
+    - apply N.eqb_eq in E. subst k. inversion Hget; subst r.
+      destruct Hin as [Hin|Hin]; [inversion Hin; subst; right; auto|left; right; exact Hin].
+    - destruct Hin as [Hin|Hin]; [left; left; exact Hin|].
+      destruct (IH Hin Hget) as [H|H]; [left; right; exact H|right; exact H]. }
+  assert (Hd : In (j, q) (del_thread i ths) \/ (j = i /\ q = p0)).
+  { clear Hs. revert Hin Hget. induction ths as [|[k r] ths IH]; intros Hin Hget; [contradiction|].
+    cbn in *. destruct (N.eqb k i) eqn:E.
+    - apply N.eqb_eq in E. subst k. inversion Hget; subst r.
+      destruct Hin as [Hin|Hin]; [inversion Hin; subst; right; auto|left; exact Hin].
+    - destruct Hin as [Hin|Hin]; [left; left; exact Hin|].
+      destruct (IH Hin Hget) as [H|H]; [left; right; exact H|right; exact H]. }
+  unfold put_thread. destruct p; assumption.
+Qed.
+
+Lemma in_put_thread : forall i p ths j q,
+  In (j, q) (put_thread i p ths) -> In (j, q) ths \/ (j = i /\ q = p /\ p <> []).
+Proof.
+  intros i p ths j q H. unfold put_thread in H. destruct p as [|m p'].
+  - left. induction ths as [|[k r] ths IH]; [contradiction|]. cbn in H.
+    destruct (N.eqb k i); [right; exact H|]. destruct H as [H|H]; [left; exact H|right; apply IH; exact H].
+  - induction ths as [|[k r] ths IH]; [contradiction|]. cbn in H.
+    destruct (N.eqb k i) eqn:E.
+    + apply N.eqb_eq in E. subst k. destruct H as [H|H]; [inversion H; subst; right; repeat split; discriminate|left; right; exact H].
+    + destruct H as [H|H]; [left; left; exact H|]. destruct (IH H) as [H'|H']; [left; right; exact H'|right; exact H'].
+Qed.
+
+Lemma set_thread_has : forall i p ths p0, get_thread i ths = Some p0 -> In (i, p) (set_thread i p ths).
+Proof.
+  intros i p ths p0. induction ths as [|[k r] ths IH]; intros H; [discriminate|]. cbn in *.
+  destruct (N.eqb k i) eqn:E; [apply N.eqb_eq in E; subst; left; reflexivity|right; apply IH; exact H].
+Qed.
+
+Lemma get_thread_in : forall i ths p, get_thread i ths = Some p -> In (i, p) ths.
+Proof.
+  intros i ths p. induction ths as [|[k r] ths IH]; intros H; [discriminate|]. cbn in *.
+  destruct (N.eqb k i) eqn:E; [apply N.eqb_eq in E; inversion H; subst; left; reflexivity|right; apply IH; exact H].
+Qed.
+
+(* ------------------------------------------------------------------ program shape: a mutation that is not
+   persisted in its own step is followed by a synchronous persist in the same request *)
+Definition needs_sync (m : micro) : bool :=
+  match m with
+  | MDropChans _ t => negb (eph t)
+  | MRemoveTopic t => negb (eph t)
+  | MRemoveChan _ t c => negb (eph t) && negb (eph c)
+  | MFlipTopic _ _ _ | MFlipChan _ _ _ _ _ => true
+  | _ => false
+  end.
+Fixpoint wf_prog (p : list micro) : Prop :=
+  match p with
+  | [] => True
+  | m :: r => (needs_sync m = true -> In MSync r) /\ wf_prog r
+  end.
+
+Lemma wf_app : forall p q, wf_prog p -> wf_prog q -> wf_prog (p ++ q).
+Proof.
+  induction p as [|m p IH]; intros q Hp Hq; [exact Hq|]. cbn in *. destruct Hp as [H1 H2].
+  split; [intros H; apply in_or_app; left; auto|apply IH; assumption].
+Qed.
+
+Lemma wf_enter : forall o l, wf_prog (enter true o l).
+Proof.
+  intros o l. destruct o; cbn.
+  - destruct (valid t); [destruct (find_topic t l)|]; cbn; intuition discriminate.
+  - destruct (find_topic t l); [|cbn; intuition discriminate].
+    destruct (eph t) eqn:E; cbn; rewrite ?E; cbn; intuition (try discriminate; auto).
+  - destruct (find_topic t l); cbn; intuition (try discriminate; auto).
+  - destruct (valid t && valid c); [destruct (find_topic t l)|]; cbn; intuition discriminate.
+  - destruct (valid t && valid c); [destruct (find_topic t l)|]; cbn; intuition discriminate.
+  - destruct (valid t && valid c); [destruct (find_topic t l)|]; cbn; intuition discriminate.
+  - cbn. intuition discriminate.
+Qed.
+
+Lemma wf_found_chan : forall g t c a l, wf_prog (found_chan true g t c a l).
+Proof.
+  intros g t c a l. unfold found_chan. destruct (get_topic g t l) as [tp|]; [|cbn; intuition discriminate].
+  destruct (find_chan c (t_chans tp)) as [ch|]; [|cbn; intuition discriminate].
+  destruct a.
+  - destruct (eph c) eqn:Ec; destruct (eph t) eqn:Et; cbn; rewrite ?Ec, ?Et; cbn; intuition (try discriminate; auto).
+  - cbn. intuition (try discriminate; auto).
+Qed.
+
+Lemma wf_skip_drop : forall p, wf_prog p -> wf_prog (skip_drop p).
+Proof. intros [|[] p] H; cbn in *; tauto. Qed.
+
+Definition Inv3 (s : st) : Prop := forall i p, In (i, p) (threads s) -> wf_prog p.
+
+Lemma Inv3_put : forall s s' i p,
+  Inv3 s -> wf_prog p -> threads s' = put_thread i p (threads s) -> Inv3 s'.
+Proof.
+  intros s s' i p I Hp E j q Hin. rewrite E in Hin.
+  destruct (in_put_thread _ _ _ _ _ Hin) as [H|(_ & -> & _)]; [eapply I; exact H|exact Hp].
+Qed.
+
+Lemma spawn_threads : forall b s, threads (spawn b s) = threads s.
+Proof. intros [] s; reflexivity. Qed.
+
+Lemma Inv3_exec : forall s i m rest,
+  Inv3 s -> get_thread i (threads s) = Some (m :: rest) -> Inv3 (exec true s i m rest).
+Proof.
+  intros s i m rest I Hth.
+  assert (Hw : wf_prog (m :: rest)) by (eapply I; apply get_thread_in; exact Hth).
+  destruct Hw as [_ Hrest].
+  assert (P : forall s' p, wf_prog p -> threads s' = put_thread i p (threads s) -> Inv3 s').
+  { intros. eapply Inv3_put; eauto. }
+  destruct m; cbn [exec].
+  - destruct (lock_free s); [|exact I]. eapply P; [|reflexivity]. apply wf_app; [apply wf_enter|exact Hrest].
+  - eapply P; [|reflexivity]. apply wf_app; [apply wf_found_chan|exact Hrest].
+  - destruct (lock_free s); [|exact I]. destruct (find_topic t (live_ s)); (eapply P; [|cbn; rewrite ?spawn_threads; reflexivity]; exact Hrest).
+  - destruct (get_topic g t (live_ s)) as [tp|]; [destruct (find_chan c (t_chans tp))|];
+      (eapply P; [|cbn; rewrite ?spawn_threads; reflexivity]; exact Hrest).
+  - destruct (get_topic g t (live_ s)) as [tp|]; [destruct (t_exiting tp)|];
+      (eapply P; [|cbn; rewrite ?spawn_threads; reflexivity]; first [exact Hrest|apply wf_skip_drop; exact Hrest]).
+  - destruct (get_topic g t (live_ s)) as [tp|]; (eapply P; [|reflexivity]; exact Hrest).
+  - destruct (lock_free s); [|exact I]. (eapply P; [|reflexivity]; exact Hrest).
+  - destruct (get_topic g t (live_ s)) as [tp|]; [destruct (find (is_chan h c) (t_chans tp)) as [ch|]; [destruct (c_exiting ch)|]|];
+      (eapply P; [|cbn; rewrite ?spawn_threads; reflexivity]; exact Hrest).
+  - (eapply P; [|reflexivity]; exact Hrest).
+  - (eapply P; [|reflexivity]; exact Hrest).
+  - (eapply P; [|reflexivity]; exact Hrest).
+  - destruct (lock_free s); [|exact I]. intros j q Hin. cbn in Hin.
+    assert (Hin' : In (j, q) (put_thread i (MAwait :: rest) (threads s))) by exact Hin.
+    destruct (in_put_thread _ _ _ _ _ Hin') as [H|(_ & -> & _)]; [eapply I; exact H|].
+    cbn. split; [discriminate|exact Hrest].
+  - exact I.
+  - (eapply P; [|reflexivity]; exact Hrest).
+Qed.
+
+Lemma Inv3_step : forall s e, Inv3 s -> Inv3 (step s e).
+Proof.
+  intros s e I. destruct e as [i o|i| |k| |]; unfold step; cbn [step_].
+  - destruct (up s); [|exact I]. destruct (get_thread i (threads s)); [exact I|].
+    intros j q Hin. cbn in Hin. apply in_app_or in Hin. destruct Hin as [Hin|[Hin|[]]]; [eapply I; exact Hin|].
+    inversion Hin; subst. cbn. intuition discriminate.
+  - destruct (get_thread i (threads s)) as [[|m rest]|] eqn:Hth; try exact I. apply Inv3_exec; assumption.
+  - destruct (lock s); [exact I|]. destruct (pending s); exact I.
+  - destruct (lock s) as [j|]; [|exact I]. unfold persist_step.
+    destruct (j_phase j).
+    + destruct (first_unread (j_slots j)); exact I.
+    + destruct (lookup (j_tmp j) (tmps (fs s))) as [c|]; [|exact I].
+      destruct (Nat.eqb _ _); exact I.
+    + destruct (lookup (j_tmp j) (tmps (fs s))); exact I.
+    + exact I.
+    + destruct (lookup (j_tmp j) (tmps (fs s))) as [c|]; [|exact I].
+      destruct (j_owner j) as [i|]; [|exact I]. cbn.
+      destruct (get_thread i (threads s)) as [[|[] rest]|] eqn:Hth; try exact I.
+      eapply Inv3_put; [exact I| |reflexivity].
+      assert (Hw : wf_prog (MAwait :: rest)) by (eapply I; apply get_thread_in; exact Hth).
+      apply Hw.
+  - destruct (up s); [|exact I]. intros j q Hin. contradiction.
+  - destruct (up s || broken s); [exact I|]. unfold restart.
+    destruct (dat (fs s)) as [c|]; [destruct (complete c); [destruct (load (f_doc c) (next_id s))|]|];
+      intros j q Hin; contradiction.
+Qed.
+
+(* ------------------------------------------------------------------ topic objects are distinct *)
+Definition live_change (s s' : st) : Prop :=
+  (next_id s <= next_id s')%N /\
+  (live_ s' = live_ s
+   \/ (exists g n f, keeps_idname f /\ live_ s' = upd_topic g n f (live_ s))
+   \/ (exists t, live_ s' = live_ s ++ [mkT (next_id s) t false false []] /\ next_id s' = N.succ (next_id s)
+                 /\ find_topic t (live_ s) = None /\ lock s = None)
+   \/ (exists t, live_ s' = remove_topic t (live_ s) /\ lock s = None)).
+
+Lemma spawn_next : forall b s, next_id (spawn b s) = next_id s.
+Proof. intros [] s; reflexivity. Qed.
+Lemma spawn_live : forall b s, live_ (spawn b s) = live_ s.
+Proof. intros [] s; reflexivity. Qed.
+
+Ltac lc_same := split; [cbn; rewrite ?spawn_next; cbn; lia|left; cbn; rewrite ?spawn_live; reflexivity].
+Ltac lc_upd := split; [cbn; rewrite ?spawn_next; cbn; lia|right; left; cbn; rewrite ?spawn_live; cbn;
+  eexists _, _, _; split; [|reflexivity];
+  first [apply keeps_set_chans | apply keeps_set_chans_f | apply keeps_set_tpaused | apply keeps_set_texiting]].
+
+Lemma exec_live_change : forall pad s i m rest, live_change s (exec pad s i m rest).
+Proof.
+  intros pad s i m rest. destruct m; cbn [exec].
+  - destruct (lock_free s); lc_same.
+  - lc_same.
+  - unfold lock_free. destruct (lock s) eqn:EL; [lc_same|].
+    destruct (find_topic t (live_ s)) eqn:EF; [lc_same|].
+    split; [cbn; rewrite ?spawn_next; cbn; lia|]. right; right; left. exists t.
+    cbn. rewrite spawn_live, spawn_next. cbn. auto.
+  - destruct (get_topic g t (live_ s)) as [tp|]; [|lc_same].
+    destruct (find_chan c (t_chans tp)); [lc_same|]. lc_upd.
+  - destruct (get_topic g t (live_ s)) as [tp|]; [|lc_same].
+    destruct (t_exiting tp); [lc_same|]. lc_upd.
+  - destruct (get_topic g t (live_ s)) as [tp|]; [|lc_same]. lc_upd.
+  - unfold lock_free. destruct (lock s) eqn:EL; [lc_same|].
+    split; [cbn; lia|]. right; right; right. exists t. cbn. auto.
+  - destruct (get_topic g t (live_ s)) as [tp|]; [|lc_same].
+    destruct (find (is_chan h c) (t_chans tp)) as [ch|]; [|lc_same].
+    destruct (c_exiting ch); [lc_same|]. lc_upd.
+  - lc_upd.
+  - lc_upd.
+  - lc_upd.
+  - destruct (lock_free s); lc_same.
+  - lc_same.
+  - lc_same.
+Qed.
+
+Lemma upd_topic_ids : forall g n f l, keeps_idname f -> map t_id (upd_topic g n f l) = map t_id l.
+Proof.
+  intros. unfold upd_topic. rewrite map_map. apply map_ext. intros t.
+  destruct (is_topic g n t); [apply H|reflexivity].
+Qed.
+
+Lemma upd_topic_names : forall g n f l, keeps_idname f -> map t_name (upd_topic g n f l) = map t_name l.
+Proof.
+  intros. unfold upd_topic. rewrite map_map. apply map_ext. intros t.
+  destruct (is_topic g n t); [apply H|reflexivity].
+Qed.
+
+Lemma NoDup_map_filter {A B} (f : A -> B) (p : A -> bool) (l : list A) :
+  NoDup (map f l) -> NoDup (map f (filter p l)).
+Proof.
+  induction l as [|x l IH]; intros H; cbn; [constructor|]. inversion H; subst.
+  destruct (p x); cbn; [|auto]. constructor; [|auto].
+  intros Hin. apply H2. apply in_map_iff in Hin. destruct Hin as (y & E & Hy).
+  apply filter_In in Hy. apply in_map_iff. exists y. tauto.
+Qed.
+
+Definition ids_ok (l : live) (nid : N) : Prop :=
+  NoDup (map t_id l) /\ (forall t, In t l -> (t_id t < nid)%N).
+
+Lemma ids_ok_upd : forall g n f l nid, keeps_idname f -> ids_ok l nid -> ids_ok (upd_topic g n f l) nid.
+Proof.
+  intros g n f l nid Hf [H1 H2]. split; [rewrite upd_topic_ids; assumption|].
+  intros t Hin. unfold upd_topic in Hin. apply in_map_iff in Hin. destruct Hin as (t0 & E & Hin).
+  specialize (H2 t0 Hin). destruct (is_topic g n t0); subst t; [destruct (Hf t0) as [-> _]|]; assumption.
+Qed.
+
+Lemma ids_ok_mono : forall l a b, (a <= b)%N -> ids_ok l a -> ids_ok l b.
+Proof. intros l a b H [H1 H2]. split; [assumption|]. intros t Hin. specialize (H2 t Hin). lia. Qed.
+
+Lemma NoDup_snoc {A} (l : list A) (x : A) : NoDup l -> ~ In x l -> NoDup (l ++ [x]).
+Proof.
+  induction l as [|y l IH]; intros H Hx; cbn; [constructor; [intros []|constructor]|].
+  inversion H; subst. constructor.
+  - intros Hin. apply in_app_or in Hin. destruct Hin as [Hin|[Hin|[]]]; [contradiction|]. subst. apply Hx. left. reflexivity.
+  - apply IH; [assumption|]. intros Hin. apply Hx. right. exact Hin.
+Qed.
+
+Lemma ids_ok_snoc : forall l nid t, ids_ok l nid -> t_id t = nid -> ids_ok (l ++ [t]) (N.succ nid).
+Proof.
+  intros l nid t [H1 H2] E. split.
+  - rewrite map_app. cbn. apply NoDup_snoc; [assumption|].
+    intros Hin. apply in_map_iff in Hin. destruct Hin as (t0 & E0 & Hin). specialize (H2 t0 Hin). lia.
+  - intros t0 Hin. apply in_app_or in Hin. destruct Hin as [Hin|[Hin|[]]]; [specialize (H2 t0 Hin); lia|subst; lia].
+Qed.
+
+Lemma ids_ok_remove : forall l nid n, ids_ok l nid -> ids_ok (remove_topic n l) nid.
+Proof.
+  intros l nid n [H1 H2]. split; [apply NoDup_map_filter; assumption|].
+  intros t Hin. apply filter_In in Hin. apply H2. tauto.
+Qed.
+
+Lemma load_chans_mono : forall cs acc nid, (nid <= snd (load_chans cs acc nid))%N.
+Proof.
+  induction cs as [|c cs IH]; intros acc nid; cbn; [lia|].
+  destruct (valid (dc_name c)); [|apply IH].
+  destruct (find_chan (dc_name c) acc); [apply IH|].
+  specialize (IH (acc ++ [mkC nid (dc_name c) (dc_paused c) false]) (N.succ nid)). lia.
+Qed.
+
+Lemma load_topics_ids : forall d acc nid, ids_ok acc nid ->
+  ids_ok (fst (load_topics d acc nid)) (snd (load_topics d acc nid)) /\ (nid <= snd (load_topics d acc nid))%N.
+Proof.
+  induction d as [|e d IH]; intros acc nid H; cbn; [split; [assumption|lia]|].
+  destruct (valid (dt_name e)); [|apply IH; assumption].
+  destruct (find_topic (dt_name e) acc) as [tp|].
+  - destruct (load_chans (dt_chans e) (t_chans tp) nid) as [cs nid'] eqn:E.
+    pose proof (load_chans_mono (dt_chans e) (t_chans tp) nid) as M. rewrite E in M. cbn in M.
+    match goal with |- context [load_topics d ?a nid'] => specialize (IH a nid') end.
+    destruct IH as [I1 I2].
+    + apply ids_ok_mono with nid; [assumption|]. apply ids_ok_upd; [|assumption]. intros t. split; reflexivity.
+    + split; [assumption|lia].
+  - destruct (load_chans (dt_chans e) [] (N.succ nid)) as [cs nid'] eqn:E.
+    pose proof (load_chans_mono (dt_chans e) [] (N.succ nid)) as M. rewrite E in M. cbn in M.
+    match goal with |- context [load_topics d ?a nid'] => specialize (IH a nid') end.
+    destruct IH as [I1 I2].
+    + apply ids_ok_mono with (N.succ nid); [assumption|]. apply ids_ok_snoc; [assumption|reflexivity].
+    + split; [assumption|lia].
+Qed.
+
+Definition Inv0 (s : st) : Prop := ids_ok (live_ s) (next_id s).
+
+Lemma Inv0_step : forall s e, Inv0 s -> Inv0 (step s e).
+Proof.
+  intros s e I. unfold Inv0 in *. destruct e as [i o|i| |k| |]; unfold step; cbn [step_].
+  - destruct (up s); [|exact I]. destruct (get_thread i (threads s)); exact I.
+  - destruct (get_thread i (threads s)) as [[|m rest]|] eqn:Hth; try exact I.
+    destruct (exec_live_change true s i m rest) as [Hn [E|[(g & n & f & Hf & E)|[(t & E & En & _)|(t & E & _)]]]]; rewrite E.
+    + eapply ids_ok_mono; eassumption.
+    + eapply ids_ok_mono; [eassumption|]. apply ids_ok_upd; assumption.
+    + rewrite En. apply ids_ok_snoc; [assumption|reflexivity].
+    + eapply ids_ok_mono; [eassumption|]. apply ids_ok_remove; assumption.
+  - destruct (lock s); [exact I|]. destruct (pending s); exact I.
+  - destruct (lock s) as [j|]; [|exact I]. unfold persist_step.
+    destruct (j_phase j).
+    + destruct (first_unread (j_slots j)); exact I.
+    + destruct (lookup (j_tmp j) (tmps (fs s))) as [c|]; [|exact I]. destruct (Nat.eqb _ _); exact I.
+    + destruct (lookup (j_tmp j) (tmps (fs s))); exact I.
+    + exact I.
+    + destruct (lookup (j_tmp j) (tmps (fs s))) as [c|]; [|exact I].
+      destruct (j_owner j) as [i|]; [|exact I]. cbn.
+      destruct (get_thread i (threads s)) as [[|[] rest]|]; exact I.
+  - destruct (up s); [|exact I]. cbn. split; [constructor|intros t []].
+  - destruct (up s || broken s); [exact I|]. unfold restart.
+    destruct (dat (fs s)) as [c|].
+    + destruct (complete c); [|cbn; split; [constructor|intros t []]].
+      unfold load. pose proof (load_topics_ids (f_doc c) [] (next_id s)) as L.
+      destruct (load_topics (f_doc c) [] (next_id s)) as [l nid]. cbn in *.
+      apply L. split; [constructor|intros t []].
+    + cbn. split; [constructor|intros t []].
+Qed.
+
+Lemma Inv0_init : Inv0 init.
+Proof. split; [constructor|intros t []]. Qed.
+
+Lemma get_topic_unique : forall l nid t, ids_ok l nid -> In t l -> get_topic (t_id t) (t_name t) l = Some t.
+Proof.
+  intros l nid t [H _] Hin. destruct (get_topic_in _ _ Hin) as [t' Ht']. rewrite Ht'. f_equal.
+  destruct (get_topic_some _ _ _ _ Ht') as (Hin' & Eid & _).
+  (* two members with the same id are the same member *)
+  clear Ht'. induction l as [|x l IH]; [contradiction|]. cbn in H. inversion H; subst.
+  destruct Hin as [->|Hin], Hin' as [->|Hin']; try reflexivity.
+  - exfalso. apply H2. rewrite <- Eid. apply in_map. exact Hin'.
+  - exfalso. apply H2. rewrite Eid. apply in_map. exact Hin.
+  - apply IH; assumption.
+Qed.
